@@ -226,7 +226,10 @@ STRIP_ATTR_PREFIXES = ("#[error", "#[source", "#[from", "#[must_use", "#[doc", "
 
 
 class Gen:
-    def __init__(self, repo, cdir, vacuity=False):
+    def __init__(self, repo, cdir, vacuity=False, force_external=(), fallback=False):
+        self.force_external = set(force_external)   # "src::key" of functions to leave unverified
+        self.fallback = fallback                    # an ExtractError inside one function externalises it
+        self.externalised = []                      # [(src, key, reason)]
         self.repo = repo
         self.cdir = cdir
         self.vacuity = vacuity
@@ -638,9 +641,23 @@ class Gen:
         if where:
             sig_out += "\n" + ind + "    " + where.rstrip(",") + ","
         info = {"src": relsrc, "line": it.line, "fn": key}
+        forced = None
+        body_text = None
+        if it.body_open is not None:
+            if f"{relsrc}::{key}" in self.force_external:
+                forced = "outside the verified subset (verifier rejected a construct in this function)"
+            else:
+                try:
+                    body_text = self.rewrite_body(it.text(it.body_open, it.body_close + 1), relsrc, key, c, mut_self)
+                except ExtractError as e:
+                    if not self.fallback:
+                        raise
+                    forced = f"outside the extractor's subset: {e}"
+            if forced:
+                self.externalised.append({"src": relsrc, "item": key, "reason": forced})
         for a in attrs:
             self.emit(ind + a)
-        if c.external_body:
+        if c.external_body or forced:
             self.emit(ind + "#[verifier::external_body]")
         self.emit(ind + sig_out, info)
         clauses = list(c.clauses)
@@ -655,8 +672,14 @@ class Gen:
             self.functions.append(rec)
             return
         body_first_line = toks[it.body_open].line
-        body = it.text(it.body_open, it.body_close + 1)
-        body = self.rewrite_body(body, relsrc, key, c, mut_self)
+        if forced:
+            rec["external_body"] = "BOUNDED-STAND-IN: " + forced
+            rec["kind"] = "fn"
+            rec["sha"] = hashlib.sha256(it.full_text().encode()).hexdigest()[:16]
+            self.functions.append(rec)
+            self.emit(ind + "{ unimplemented!() }", info)
+            return
+        body = body_text
         if pre_lets:
             body = "{ " + " ".join(pre_lets) + body[1:]
         if self.vacuity and not c.external_body:
@@ -1151,8 +1174,8 @@ def lemma_vacuity(txt, name):
     return txt
 
 
-def generate(repo, cdir, vacuity):
-    g = Gen(repo, cdir, vacuity)
+def generate(repo, cdir, vacuity, force_external=(), fallback=False):
+    g = Gen(repo, cdir, vacuity, force_external, fallback)
     g.emit("// GENERATED by /verif/extract/extract.py from the working tree of the repository.")
     g.emit("// Function bodies are copied from the sources; contracts come from contracts/src/*.contract.")
     g.emit("#![feature(pattern)]")
@@ -1209,9 +1232,12 @@ def main():
     ap.add_argument("--contracts", default=os.path.join(os.path.dirname(os.path.abspath(__file__)), "..", "contracts"))
     ap.add_argument("--out", required=True)
     ap.add_argument("--vacuity", action="store_true")
+    ap.add_argument("--fallback", action="store_true", help="a function the extractor cannot handle is emitted external_body (bounded stand-in decided by the driver)")
+    ap.add_argument("--external-body", default="", help="';'-separated src::key list of functions to leave unverified")
     a = ap.parse_args()
     try:
-        g = generate(a.repo, a.contracts, False)
+        fe = [x for x in a.external_body.split(';') if x]
+        g = generate(a.repo, a.contracts, False, fe, a.fallback)
         os.makedirs(os.path.dirname(os.path.abspath(a.out)), exist_ok=True)
         with open(a.out, "w") as f:
             f.write("\n".join(g.out) + "\n")
@@ -1221,13 +1247,14 @@ def main():
             "functions": g.functions,
             "clauses": g.clauses,
             "skipped": g.skipped,
+            "externalised": g.externalised,
             "items": g.items,
             "linemap": g.linemap,
         }
         with open(a.out + ".map.json", "w") as f:
             json.dump(meta, f)
         if a.vacuity:
-            gv = generate(a.repo, a.contracts, True)
+            gv = generate(a.repo, a.contracts, True, fe, a.fallback)
             with open(a.out.replace(".rs", "_vacuity.rs"), "w") as f:
                 f.write("\n".join(gv.out) + "\n")
             with open(a.out.replace(".rs", "_vacuity.rs") + ".map.json", "w") as f:
